@@ -89,6 +89,20 @@ def _eval(make, X, cut, exact_ints=False):
         return make().fit(X).evaluate(np.array([list(cut)]))
 
 
+def _eval_reused(make, X, cut, Xview, cutview, exact_ints=False):
+    """One scorer instance: fit(X).evaluate(cut), then refitted on a *view* of the same buffer (reversed rows /
+    reversed columns are views in NumPy) and evaluated there -- how a caller checks a symmetry in practice."""
+    def ev(inst, data, c):
+        if exact_ints:
+            with proxy.settings(exact=True, object_ints=True):
+                return inst.fit(data).evaluate(np.array([[SymInt(z3.IntVal(v)) for v in c]], dtype=object))
+        with proxy.settings(exact=True):
+            return inst.fit(data).evaluate(np.array([list(c)]))
+    inst = make()
+    ev(inst, X, cut)
+    return ev(inst, Xview, cutview)
+
+
 def _equal(eng, acc, name, a, b, info):
     ta, tb = rv(a), rv(b)
     if z3.simplify(ta - tb).eq(z3.RealVal(0)):
@@ -161,6 +175,14 @@ def _scorer_harness(sym, scorer, n, p, cut):
                         _equal(eng, acc, "perm.columns_permuted", got[0, j], ref[0, pi[j]], dict(info, perm=pi, col=j))
                 else:
                     _equal(eng, acc, "perm.multivariate_value_unchanged", got[0, 0], ref[0, 0], dict(info, perm=pi))
+                if pi == tuple(reversed(range(p))):
+                    # the same scorer object refitted on the column-reversed *view* of the data it was fitted on
+                    try:
+                        got2 = _eval_reused(make, X, cut, X[:, ::-1], cut, exact_ints)
+                        for j in range(got2.shape[1]):
+                            _equal(eng, acc, "perm.same_object_refitted_on_view", got2[0, j], got[0, j], dict(info, perm=pi, col=j, reuse="view"))
+                    except RuntimeError:
+                        pass
         elif sym == "shift":
             cs = [z3.Real(f"shift_{j}") for j in range(p)]
             Xs = X + np.array([SymReal(c) for c in cs], dtype=object)
@@ -201,6 +223,12 @@ def _scorer_harness(sym, scorer, n, p, cut):
                 return
             for j in range(got.shape[1]):
                 _equal(eng, acc, "reverse.value_of_mirrored_cut", got[0, j], ref[0, j], dict(info, col=j, mirrored=list(mirror(cut, n))))
+            try:
+                got2 = _eval_reused(make, X, cut, X[::-1], mirror(cut, n), exact_ints)
+                for j in range(got2.shape[1]):
+                    _equal(eng, acc, "reverse.same_object_refitted_on_view", got2[0, j], ref[0, j], dict(info, col=j, reuse="view", mirrored=list(mirror(cut, n))))
+            except RuntimeError:
+                pass
         acc.sample(dict(info, value=str(z3.simplify(rv(ref[0, 0])))[:120] if ref is not None else "RuntimeError"))
         if ref is not None and acc.total("witness_tried") < 30:
             # float witness of the untransformed run: symbolic term at a model of the path vs the native scorer
@@ -468,7 +496,17 @@ def replay(cx):
             ev = lambda X, c: np.asarray(make().fit(X).evaluate(np.array([list(c)]))[0], dtype=float)
             try:
                 ref = ev(Xf, cut)
-                if sym == "perm":
+                if info.get("reuse") == "view":
+                    inst = make()
+                    inst.fit(Xf).evaluate(np.array([list(cut)]))
+                    if sym == "perm":
+                        got = np.asarray(inst.fit(Xf[:, ::-1]).evaluate(np.array([list(cut)]))[0], dtype=float)
+                        want = ev(Xf[:, ::-1].copy(), cut)
+                    else:
+                        got = np.asarray(inst.fit(Xf[::-1]).evaluate(np.array([list(mirror(cut, n))]))[0], dtype=float)
+                        want = ref
+                    sym = sym + " (same object refitted on a view of the data it holds)"
+                elif sym == "perm":
                     pi = tuple(info.get("perm") or reversed(range(p)))
                     got = ev(Xf[:, list(pi)], cut)
                     want = ref[list(pi)] if len(ref) == p and scorer != "GaussianCovCost" else ref
